@@ -200,7 +200,7 @@ class GVN:
             r = memo.get(x.uid)
             if r is not None:
                 return r
-            args = tuple(go(a) if isinstance(a, T) else a for a in x.args)
+            args = tuple([go(a) if isinstance(a, T) else a for a in x.args])
             if x.op == "iter":
                 r = mk("iter", args[0], 0)
             elif x.op in ("havoc", "loopout"):
@@ -250,7 +250,7 @@ class GVN:
             r = memo.get(x.uid)
             if r is not None:
                 return r
-            args = tuple(go(a) if isinstance(a, T) else a for a in x.args)
+            args = tuple([go(a) if isinstance(a, T) else a for a in x.args])
             if x.op == "binop" and x.args[0] in ("+", "*") and show(args[1], maxdepth=6) > show(args[2], maxdepth=6):
                 args = (args[0], args[2], args[1])
             r = x if all(a is b for a, b in zip(args, x.args)) else mk(x.op, *args)
@@ -296,12 +296,12 @@ class GVN:
         if op == "call":
             return self._call(t)
         if op in ("list", "tuple"):
-            return self.single(self.atom("seq", tuple(f_key(self._n(x)) for x in t.args)))
+            return self.single(self.atom("seq", tuple([f_key(self._n(x)) for x in t.args])))
         if op in ("vmap_elem", "scan_x"):
             src = t.args[0]
             if src.op in ("tuple", "list"):
                 return self.single(self.atom("seq", tuple(
-                    f_key(self.lin1(self._n(x), lambda a: self.atom("elem", a))) for x in src.args)))
+                    [f_key(self.lin1(self._n(x), lambda a: self.atom("elem", a))) for x in src.args])))
             inner = self._n(src)
             return self.lin1(inner, lambda a: self.atom("elem", a))
         if op == "scan_carry":
@@ -441,9 +441,9 @@ class GVN:
         """Canonical key of a subscript: constants and slices literally, computed index
         expressions by their value number (never by a truncated rendering)."""
         if idx.op == "tuple":
-            return ("tup",) + tuple(self.idx_key(x) for x in idx.args)
+            return ("tup",) + tuple([self.idx_key(x) for x in idx.args])
         if idx.op == "slice":
-            return ("sl",) + tuple(self.idx_key(x) for x in idx.args)
+            return ("sl",) + tuple([self.idx_key(x) for x in idx.args])
         if idx.op == "const":
             return repr(idx.args[0])
         return ("v", f_key(self._n(idx)))
@@ -486,13 +486,13 @@ class GVN:
         if fn in ("array", "asarray") and len(pos) == 1:
             inner = pos[0]
             if inner.op in ("list", "tuple"):
-                return self.single(self.atom("stackseq", tuple(f_key(self._n(x)) for x in inner.args)))
+                return self.single(self.atom("stackseq", tuple([f_key(self._n(x)) for x in inner.args])))
             return self._n(inner)
         if fn in ("stack", "vstack", "hstack", "block", "concatenate") and pos:
             inner = pos[0]
             if inner.op in ("list", "tuple"):
                 kind = "stackseq" if fn == "stack" else fn
-                return self.single(self.atom(kind, tuple(f_key(self._n(x)) for x in inner.args)))
+                return self.single(self.atom(kind, tuple([f_key(self._n(x)) for x in inner.args])))
         if f.op == "attr":
             recv, meth = f.args
             if meth in ("copy",) and not pos:
@@ -541,12 +541,12 @@ class GVN:
         sc = match_scan(t)
         if sc is not None and sc[0].op == "closure":
             fcl, init, xs, length = sc
-            body = self.ev.open_closure(fcl, [mk("scan_carry", init, 0), mk("scan_x", xs, 0)])
+            body = self.ev.open_closure(fcl, [mk("scan_carry", init, 0), mk("scan_x", xs, 0)], at_call=t)
             body = self.norm_loops(body)
             if xs.op in ("tuple", "list"):
                 # the body addresses the scanned sequences through elem(...) atoms; their order in
                 # the xs tuple is bookkeeping
-                xk = tuple(sorted(f_key(self._n(x)) for x in xs.args))
+                xk = tuple(sorted([f_key(self._n(x)) for x in xs.args]))
             else:
                 xk = f_key(self._n(xs))
             return self.single(self.atom("scan", f_key(self._n(body)), f_key(self._n(init)),
@@ -555,10 +555,10 @@ class GVN:
             fcl = transparent(pos[0])
             if full == "jax.jvp" and len(pos) >= 3 and pos[1].op in ("list", "tuple"):
                 prim = list(pos[1].args)
-                tang = tuple(f_key(self._n(x)) for x in pos[2].args) if pos[2].op in ("list", "tuple") else ()
+                tang = tuple([f_key(self._n(x)) for x in pos[2].args]) if pos[2].op in ("list", "tuple") else ()
             else:
                 prim, tang = list(pos[1:]), ()
-            body = self.norm_loops(self.ev.open_closure(fcl, prim))
+            body = self.norm_loops(self.ev.open_closure(fcl, prim, at_call=t))
             return self.single(self.atom(full, f_key(self._n(body)), tang))
         # vmap
         vm = match_vmap(t)
@@ -566,11 +566,11 @@ class GVN:
             return self._vmap(t, vm)
         if fn is not None or (full is not None and not full.startswith(".")):
             name = fn or full
-            argk = tuple(f_key(self._n(x)) for x in pos) + tuple(
-                (k, f_key(self._n(v))) for k, v in sorted(kws.items()) if k != "optimize")
+            argk = tuple([f_key(self._n(x)) for x in pos]) + tuple(
+                [(k, f_key(self._n(v))) for k, v in sorted(kws.items()) if k != "optimize"])
             return self.single(self.atom("fn", name, argk))
         if f.op == "attr":
-            argk = tuple(f_key(self._n(x)) for x in pos)
+            argk = tuple([f_key(self._n(x)) for x in pos])
             return self.single(self.atom("mcall", f.args[1], f_key(self._n(f.args[0])) if not
                                          self._is_leaf_chain(f.args[0]) and f.args[0].op not in ("sym",)
                                          else self.sshow(f.args[0], maxdepth=4), argk))
@@ -589,7 +589,7 @@ class GVN:
             margs.append(mk("vmap_elem", a, 0) if mapped else a)
         body = None
         if f.op == "closure":
-            body = self.ev.open_closure(f, margs)
+            body = self.ev.open_closure(f, margs, at_call=t)
         elif f.op == "attr" and self.frame is not None:
             cands = self.ev.resolve_callees(f, self.frame)
             if cands and len(cands) == 1:
@@ -601,7 +601,7 @@ class GVN:
                 r = self.lin1(inner, lambda a: self.atom(nm, a, ""))
                 return self.lin1(r, lambda a: self.atom("stack", a))
         if body is None:
-            argk = tuple(f_key(self._n(x)) for x in margs)
+            argk = tuple([f_key(self._n(x)) for x in margs])
             return self.single(self.atom("vmapcall", self.sshow(f, maxdepth=3), argk))
         body = self.norm_loops(body)
         r = self._n(body)
@@ -620,7 +620,7 @@ class GVN:
             ins, out = spec, None
         in_subs = ins.split(",")
         if len(in_subs) != len(operands) or "." in spec:
-            argk = tuple(f_key(self._n(x)) for x in operands)
+            argk = tuple([f_key(self._n(x)) for x in operands])
             return self.single(self.atom("einsum_raw", spec, argk))
         if out is None:
             counts: Dict[str, int] = {}
